@@ -34,6 +34,7 @@ type ctx struct {
 	wrap64 bool // int mode: 64-bit arithmetic wraps (exact) instead of producing overflow obligations
 	facts []symFact // facts about heap symbols (value ranges), rendered when the symbol is used
 	iptrs map[string]iptrInfo // interior-pointer encodings: function name -> (base type, field path)
+	axiomAsserts map[*T]bool // assertions that are package axioms (pruned from queries they share no function symbol with)
 	eptrs map[string]types.Type // element-pointer encodings: function name -> element type
 	wideBitFns map[string]int // int mode: uninterpreted bitwise functions on wide unsigned values -> width
 }
